@@ -179,6 +179,16 @@ func vfUFInt(name, arg string, lo, hi int) int {
 	return int(f)
 }
 
+func vfUFIRI(name, arg string) string {
+	v, ok := vfTape.Values["uf:"+name+":"+arg]
+	if !ok {
+		vfMissing = append(vfMissing, "uf:"+name+":"+arg)
+		return "https://missing.example/uf/" + name
+	}
+	s, _ := v.(string)
+	return s
+}
+
 func vfAnd(a, b bool) bool     { return a && b }
 func vfOr(a, b bool) bool      { return a || b }
 func vfNot(a bool) bool        { return !a }
